@@ -254,7 +254,11 @@ def parse_vtt_pct(value: str):
   """Parse a WebVTT precentage value"""
   m = _VTT_PCT_RE.fullmatch(value)
   if m:
-    return round(float(m.group(1)))
+    try:
+      return round(float(m.group(1)))
+    except OverflowError:
+      # too many digits for a number
+      return None
   return None
 
 # integer has at most 20 digits
